@@ -2,7 +2,7 @@
    durable metadata references, so a crash during or after compaction still satisfies C05.
    Statements only. *)
 From Anydb Require Import Common.Base Gen.Consts Rawdb.AMap Rawdb.Alloc Rawdb.Crash Rawdb.CrashFacts
-  Rawdb.CrashInv Rawdb.CrashSound Rawdb.CrashCompact.
+  Rawdb.CrashInv Rawdb.CrashSound Rawdb.CrashCompact Rawdb.AllocEvents Rawdb.AllocDisciplinedAll.
 
 (* in an accepted trace, a punch issued while no operation ids are current (compaction names no
    region) is disjoint from the content [start, start+len) of EVERY possibly-durable version of
@@ -49,3 +49,16 @@ Theorem C12_tail_punch_misses_content :
   forall start ln reserved, disjoint (start + ceil_page ln) (reserved - ceil_page ln) start ln = true.
 Proof. exact C12_tail_punch_disjoint. Qed.
 Print Assumptions C12_tail_punch_misses_content.
+
+(* every history of the allocator model: a punch of the model's trace never meets the content of a
+   possibly-durable version.  PARTIAL in the hypothesis `m_cur m = []`: in the model's traces
+   punches occur only inside compact, whose COp names no id, so it always holds, but that
+   structural fact about trace_of_o is not proved. *)
+Theorem C12_all_histories_partial :
+  forall orcs min_len ops, forallb crash_op ops = true ->
+  forall t1 off len t2, trace_of_o orcs min_len ops = t1 ++ CPunch off len :: t2 ->
+    let m := fst (mon_run mon_init t1) in
+    m_cur m = [] ->
+    forall i v, In (Some v) (possible m i) -> disjoint off len (sr_start v) (sr_len v) = true.
+Proof. exact C12_all_histories_partial_proof. Qed.
+Print Assumptions C12_all_histories_partial.
